@@ -456,8 +456,26 @@ def run(prog: Program, res: Result) -> None:  # noqa: PLR0912, PLR0915
             q = fi.qualname if fi else "<module>"
             site = f"{mod_.relpath}:{h.lineno} {q}"
             what = f"`except {', '.join(names) or ''}` in {q} re-raises"
-            if any(isinstance(x, ast.Raise) for x in ast.walk(h)):
-                res.ok("C16.R7", site, what, "the handler raises (adds context / converts)")
+            def _always_raises(body: list[ast.stmt]) -> bool:
+                for st in body:
+                    if isinstance(st, ast.Raise):
+                        return True
+                    if isinstance(st, (ast.Return, ast.Continue, ast.Break)):
+                        return False
+                    if isinstance(st, ast.If):
+                        if any(isinstance(x, (ast.Return, ast.Continue, ast.Break)) for b in st.body + st.orelse for x in ast.walk(b)):
+                            return False
+                        if st.orelse and _always_raises(st.body) and _always_raises(st.orelse):
+                            return True
+                    elif any(isinstance(x, (ast.Return, ast.Continue, ast.Break)) for x in ast.walk(st)):
+                        return False
+                return False
+
+            if _always_raises(h.body):
+                res.ok("C16.R7", site, what, "every path through the handler raises (adds context / converts)")
+            elif any(isinstance(x, ast.Raise) for x in ast.walk(h)):
+                n_sw += 1
+                res.fail("C16.R7", file=mod_.relpath, line=h.lineno, qualname=q, construct=f"except {', '.join(hit)} re-raises only on some paths in {q}", message=f"{q} catches {', '.join(hit)} and re-raises on some paths only (another path returns or falls through): an UndefinedError raised by the strict policy inside the try block can be swallowed and replaced by a fallback, so a strict render succeeds with output that differs from the default policy's", what=what)
             else:
                 n_sw += 1
                 res.fail("C16.R7", file=mod_.relpath, line=h.lineno, qualname=q, construct=f"except {', '.join(hit)} without re-raise in {q}", message=f"{q} catches {', '.join(hit)} and carries on: an UndefinedError raised by the strict policy inside the try block is swallowed and replaced by the handler's fallback, so a strict render succeeds with output that differs from the default policy's", what=what)
@@ -469,45 +487,6 @@ def run(prog: Program, res: Result) -> None:  # noqa: PLR0912, PLR0915
 
     # ------------------------------------------------------------------ R6 presence is decided by key, not by value
     res.rule("C16.R6", "variable lookup decides 'missing' from the failed key/index lookup (KeyError/IndexError/TypeError, `in`), never from the looked-up value: a variable bound to nil/false/0/'' exists")
-    look_fns = []
-    cm = prog.cls("liquid2.utils.chainmap.ReadOnlyChainMap")
-    for nm in ("__getitem__", "get"):
-        if nm in cm.methods:
-            look_fns.append(cm.methods[nm])
-    for nm in ("get", "get_async", "resolve", "get_item", "get_item_async"):
-        if nm in ctx.methods:
-            look_fns.append(ctx.methods[nm])
-    res.floor("C16.R6", "lookup functions", len(look_fns), 6)
-    n_lk = 0
-    for f in look_fns:
-        # names bound from a lookup expression
-        looked: dict[str, ast.AST] = {}
-        for n in ast.walk(f.node):
-            if isinstance(n, ast.Assign) and len(n.targets) == 1 and isinstance(n.targets[0], ast.Name):
-                v = n.value.value if isinstance(n.value, ast.Await) else n.value
-                is_lookup = (isinstance(v, ast.Subscript) and not isinstance(v.slice, ast.Slice)) or (isinstance(v, ast.Call) and isinstance(v.func, ast.Attribute) and v.func.attr in ("get", "get_item", "get_item_async", "pop")) or (isinstance(v, ast.Call) and isinstance(v.func, ast.Name) and v.func.id in ("getitem", "getattr"))
-                if is_lookup:
-                    looked[n.targets[0].id] = v
-                    n_lk += 1
-        for v, src in looked.items():
-            sentinel = None
-            if isinstance(src, ast.Call) and len(src.args) >= 2 and not (isinstance(src.args[1], ast.Constant) and src.args[1].value is None):
-                sentinel = norm(src.args[1])
-            for t in ast.walk(f.node):
-                test = t.test if isinstance(t, (ast.If, ast.IfExp, ast.While)) else None
-                if test is None:
-                    continue
-                bad = None
-                for x in ast.walk(test):
-                    if isinstance(x, ast.Compare) and isinstance(x.left, ast.Name) and x.left.id == v and isinstance(x.ops[0], (ast.Is, ast.IsNot, ast.Eq, ast.NotEq)):
-                        rhs = x.comparators[0]
-                        if sentinel is not None and norm(rhs) == sentinel:
-                            continue
-                        if isinstance(rhs, ast.Constant) and (rhs.value is None or rhs.value in (False, 0, "")):
-                            bad = norm(x)
-                if bad is None and ((isinstance(test, ast.Name) and test.id == v) or (isinstance(test, ast.UnaryOp) and isinstance(test.op, ast.Not) and isinstance(test.operand, ast.Name) and test.operand.id == v)):
-                    bad = norm(test)
-                if bad:
-                    res.fail("C16.R6", file=f.file, line=t.lineno, qualname=f.qualname, construct=f"{f.qualname}: `{bad}` on the looked-up value {v}", message=f"{f.qualname} tests the looked-up value (`{bad}`) to decide whether the key exists: a variable whose value is nil/false/0/'' is treated as missing and strict undefined raises for data that is present", what=f"{f.qualname}: existence of `{v}` decided by the lookup, not its value")
-        res.ok("C16.R6", f"{f.file}:{f.node.lineno} {f.qualname}", f"{f.qualname}: no existence test on a looked-up value", f"{len(looked)} looked-up names")
-    res.floor("C16.R6", "lookup results bound to names", n_lk, 2)
+    from checks.shared import check_presence_by_key
+
+    check_presence_by_key(prog, res, "C16.R6")
